@@ -610,11 +610,11 @@ TamperHeader(d, what) ==
   /\ AdvStep /\ d \in net /\ what \in {"drop", "cid", "plain", "early", "same"}
   /\ d.t = "destroy" => what = "drop"
   /\ net' = CASE what = "drop" -> net \ {d}
-              [] what = "cid" -> (net \ {d}) \cup {[d EXCEPT !.cid = 0, !.m = Taint(@)]}
+              [] what = "cid" -> (net \ {d}) \cup {[d EXCEPT !.cid = ctr.cid + 1, !.m = Taint(@)]}   \* an id nobody used so far
               [] what = "plain" -> (net \ {d}) \cup {[d EXCEPT !.plain = ~@, !.m = Taint(@)]}
               [] what = "early" -> (net \ {d}) \cup {[d EXCEPT !.early = ~@, !.m = Taint(@)]}
               [] what = "same" -> net      \* a flag byte changed between two non-zero values: same meaning
-  /\ UNCHANGED ctr /\ AdvFrame
+  /\ ctr' = [ctr EXCEPT !.cid = IF what = "cid" THEN @ + 1 ELSE @] /\ AdvFrame
 \* an in-flight cell of one circuit re-labelled with another circuit id
 Splice(d, cid) == /\ AdvStep /\ d \in net /\ d.t = "cell" /\ d.L # <<>> /\ cid \in 1..ctr.cid /\ cid # d.cid
                   /\ net' = (net \ {d}) \cup {[d EXCEPT !.cid = cid, !.m = Taint(@)]} /\ UNCHANGED ctr /\ AdvFrame
